@@ -836,11 +836,12 @@ def run(ctx):
     quick = ctx.tier == "quick"
     rng = random.Random(1212 + ctx.seed)
 
-    mfails = model_cases(ctx, rng)
+    mfails = model_cases(ctx, random.Random(77 + ctx.seed))
 
     stats, recs, nlat = {}, [], 0
     kinds = {}
-    for kind, kw, nj in make_lattices(rng, ctx.tier):
+    for kind, kw, nj in make_lattices(random.Random(99 + ctx.seed), ctx.tier):
+        rng = random.Random(1212 + 1000 * ctx.seed + nlat)        # every lattice is reproducible on its own
         lat = Lattice(rng, nlat, kind, **kw)
         nlat += 1
         kinds[kind] = kinds.get(kind, 0) + 1
